@@ -1,4 +1,5 @@
 """Helpers shared by the property monitors."""
+import os
 import random
 import re
 import signal
@@ -149,6 +150,9 @@ def run_cases(ctx, mon, ncases, body, wall=None, only_case=None):
         wall = 360 if ctx.tier == 'quick' else 3600
     bud = Budget(wall) if wall else None
     cases = range(ncases) if only_case is None else [only_case]
+    if only_case is not None and os.environ.get('VERIF_REPLAY_PREFIX'):
+        # replay of a violation that depends on state left in the library by earlier cases of the shard
+        cases = range(only_case + 1)
     # the alarm is a *no progress* watchdog: every returning outermost call and every oracle section re-arms it
     # checks that judge termination by the deterministic step budget (C09-C11) do not need the wall clock for that:
     # their alarm is only a last resort and long enough not to fire on a loaded machine
